@@ -3,6 +3,7 @@ import NmVerif.Arr
   NmVerif.Index.SelCommon — small pieces shared by the C04 models (Repeat, Roll, Pad, Take, Concatenate, …).
 
     `u64 x`            value of a signed C++ integer after conversion to `size_t` (two's complement, 64 bit)
+    `i2u v`            the same for an `int` value: identity on non-negative values
     `atPy l i`         `nmtools::at(l, i)` for a *signed run-time* index `i` (utility/at.hpp:196-212):
                        `i < 0 ⇒ l[len(l) + i]` (one Python-style wrap), else `l[i]`; `none` = access outside the container
                        (std::vector::at throws / UB) — never happens on accepted arguments.
@@ -15,6 +16,9 @@ namespace NmVerif.Index
 
 /-- a signed integer converted to `size_t` -/
 def u64 (x : Int) : Nat := (x % (2 ^ 64 : Int)).toNat
+
+/-- a C++ `int` stored into a `size_t`: non-negative values unchanged, negative ones wrap -/
+def i2u (v : Int) : Nat := if v < 0 then u64 v else v.toNat
 
 /-- position addressed by `nmtools::at(l, i)` for a signed run-time `i` in a container of length `n`;
     `i < -n` gives the unsigned value `2^64 + n + i`, which is outside every container: `none` -/
